@@ -17,13 +17,16 @@ class SimFile(io.StringIO):
         self._path = path
         self._fault = fault
         self._reads = 0
+        self._tripped = False
 
     def read(self, *a):
         self._reads += 1
         ft = self._fault
-        if ft is not None and not ft.get('fired') and \
+        if ft is not None and not self._tripped and \
+                (ft.get('sticky') or not ft.get('fired')) and \
                 self._reads > ft.get('after_reads', 0):
             ft['fired'] = True
+            self._tripped = True
             self._fs.fired(ft)
             self._fs.log.append(['read', self._path, 'fault:EIO'])
             raise OSError(errno.EIO, 'Input/output error (injected)',
